@@ -72,6 +72,12 @@ type Cfg struct {
 	// dedicated run (hook VerifPrepareRacingBatch): a batch lands behind the stop sentinel of Peer.Stop while a
 	// (gated) encryption worker holds it; then the peer is restarted
 	RestartRace bool `json:"restart_race"`
+	// this many TUN read batches per peer are staged BEFORE the session exists (the handshake response is held back
+	// until then); the flush at handshake completion must release all of them, in order
+	StagedBefore int `json:"staged_before"`
+	// the remote party initiates and its first RespEarly transport messages arrive while the device's Bind.Send of
+	// the handshake response is still in progress (slow send): they must be accepted and written to the TUN
+	RespEarly int `json:"resp_early"`
 }
 
 type OLane struct {
@@ -185,25 +191,95 @@ func runCase(c Cfg) Case {
 		w.Take()
 	}
 	w.Timeout = 5 * time.Second
-	// sessions: the device initiates towards every peer
-	for i, p := range peers {
-		out := w.TunIn(stress.Packet([4]byte{10, 9, 9, 9}, [4]byte{10, 0, byte(i), 2}, 40, uint64(i), 0))
-		init := cosim.FindInitiation(out.Sent)
-		if init == nil {
-			return fail("no initiation towards " + p.Name)
-		}
-		if _, _, err := w.AnswerInitiation(p, init.Data, p.Addr); err != nil {
-			return fail(err.Error())
-		}
-	}
-	w.Take()
-	w.Timeout = 10 * time.Second
 	cs.Out = make([]OLane, len(peers))
 	cs.In = make([]ILane, len(peers))
-	for i, p := range peers {
-		cs.Out[i].N0 = w.Dev.VerifPeer(cosim.NoisePK(p.Pub)).Current.SendNonce
+	for i := range peers {
 		cs.Out[i].Sent = [][3]uint64{}
 		cs.In[i].Wr = [][2]uint64{}
+	}
+	var setupSent []sim.Sent
+	var setupWritten []sim.Written
+	special := c.StagedBefore > 0 || c.RespEarly > 0
+	for i, p := range peers {
+		switch {
+		case c.RespEarly > 0:
+			// the device is the RESPONDER; its Send of the response is slow, the initiator's first data overtakes it
+			p.NextIdx++
+			st := ref.CreateInitiation(p.Priv, ref.NewPrivate(), w.DevPub, p.Psk, p.NextIdx, ref.Tai64n(time.Now()))
+			var sess *ref.Session
+			w.Bind.SendGate = func(bufs [][]byte, to netip.AddrPort) {
+				if sess != nil || len(bufs) != 1 || len(bufs[0]) != ref.ResponseSize || bufs[0][0] != ref.TypeResponse {
+					return
+				}
+				s2, err := st.ConsumeResponse(bufs[0])
+				if err != nil {
+					return
+				}
+				sess = s2
+				ds := make([]sim.Dgram, c.RespEarly)
+				for k := range ds {
+					cs.In[i].N++
+					inner := stress.Packet([4]byte{10, 0, byte(i), 2}, [4]byte{10, 9, 9, 9}, pktLen2(r, c), uint64(i), uint64(cs.In[i].N))
+					ds[k] = sim.Dgram{From: p.Addr, Data: sess.Next(ref.Pad(inner))}
+				}
+				w.Bind.Inject(ds...)
+				for dl := time.Now().Add(200 * time.Millisecond); !w.Bind.Idle() && time.Now().Before(dl); {
+					time.Sleep(200 * time.Microsecond)
+				}
+				time.Sleep(3 * time.Millisecond) // the response is still "being sent" while the data is processed
+			}
+			out := w.Inject(p.Addr, st.Msg)
+			w.Bind.SendGate = nil
+			if sess == nil {
+				return fail("no handshake response towards " + p.Name)
+			}
+			p.Sessions = append(p.Sessions, sess)
+			setupSent = append(setupSent, out.Sent...)
+			setupWritten = append(setupWritten, out.Written...)
+		case c.StagedBefore > 0:
+			// several TUN read batches are staged while no session exists; then the handshake completes
+			var init *sim.Sent
+			for b := 0; b < c.StagedBefore; b++ {
+				n := 1 + r.Intn(8)
+				pkts := make([][]byte, n)
+				for k := range pkts {
+					cs.Out[i].N++
+					pkts[k] = stress.Packet([4]byte{10, 9, 9, 9}, [4]byte{10, 0, byte(i), 2}, pktLen2(r, c), uint64(i), uint64(cs.Out[i].N))
+				}
+				out := w.TunIn(pkts...)
+				if b == 0 {
+					init = cosim.FindInitiation(out.Sent)
+				}
+			}
+			if init == nil {
+				return fail("no initiation towards " + p.Name)
+			}
+			_, aout, err := w.AnswerInitiation(p, init.Data, p.Addr)
+			if err != nil {
+				return fail(err.Error())
+			}
+			setupSent = append(setupSent, aout.Sent...)
+		default:
+			out := w.TunIn(stress.Packet([4]byte{10, 9, 9, 9}, [4]byte{10, 0, byte(i), 2}, 40, uint64(i), 0))
+			init := cosim.FindInitiation(out.Sent)
+			if init == nil {
+				return fail("no initiation towards " + p.Name)
+			}
+			if _, _, err := w.AnswerInitiation(p, init.Data, p.Addr); err != nil {
+				return fail(err.Error())
+			}
+		}
+	}
+	if o := w.Take(); special {
+		setupSent = append(setupSent, o.Sent...)
+		setupWritten = append(setupWritten, o.Written...)
+	}
+	w.Timeout = 10 * time.Second
+	for i, p := range peers {
+		cs.Out[i].N0 = w.Dev.VerifPeer(cosim.NoisePK(p.Pub)).Current.SendNonce
+		if c.StagedBefore > 0 {
+			cs.Out[i].N0 = 0 // the staged packets are the first under the new key
+		}
 	}
 
 	if c.RestartRace {
@@ -597,7 +673,7 @@ func runCase(c Cfg) Case {
 	collStop.Store(true)
 	collWg.Wait()
 	collMu.Lock()
-	sent := append(allSent, w.Bind.TakeSent()...)
+	sent := append(append(setupSent, allSent...), w.Bind.TakeSent()...)
 	collMu.Unlock()
 	if _, hung := info["cycles_hung"]; hung {
 		cs.Quiet = false
@@ -607,7 +683,7 @@ func runCase(c Cfg) Case {
 		cs.Quiet = false
 		cs.Out[0].Bad++
 	}
-	written := w.Tun.TakeWritten()
+	written := append(setupWritten, w.Tun.TakeWritten()...)
 	closed := make(chan struct{})
 	go func() { w.Close(); close(closed) }()
 	select {
@@ -630,6 +706,9 @@ func runCase(c Cfg) Case {
 		l := &cs.Out[pi]
 		if cs.Mode != "" && len(s.Data) == ref.InitiationSize && s.Data[0] == ref.TypeInitiation {
 			continue // handshakes are expected in these runs
+		}
+		if c.RespEarly > 0 && len(s.Data) == ref.ResponseSize && s.Data[0] == ref.TypeResponse {
+			continue // the handshake response of the prelude
 		}
 		if len(s.Data) < 32 || s.Data[0] != ref.TypeTransport {
 			l.Bad++ // not a transport message at all (e.g. emitted before encryption)
@@ -848,6 +927,10 @@ func genCfg(r *rand.Rand, i int, pkts int) Cfg {
 		c.NIn = 1000
 	}
 	switch i % 12 {
+	case 0:
+		c.StagedBefore = 2 + r.Intn(6)
+	case 6:
+		c.RespEarly = 1 + r.Intn(4)
 	case 2, 8:
 		// several flushers per peer (TUN reader + keepalive callers + UAPI sets) with tiny batches on few Ps: the window
 		// between "visible on the peer's queue" and "locked / on the work queue" is crossed as often as possible
